@@ -283,8 +283,12 @@ def run_case(spec, rec):
                 nontrivial = True
                 classes.add("removes_best")
 
+            # present the index in negative form for negative raw operands (and for every second *_best)
+            neg = (op[1] < 0) if name == "setitem" else (len(it[0]) % 2 == 1)
+            idx = i - n if neg else i
+
             def _set():
-                real[i] = _mk(qsim, it)
+                real[idx] = _mk(qsim, it)
             lib(_set, what="setitem")
             model[i] = _mtriple(it)
         elif name == "setslice":
